@@ -394,7 +394,7 @@ impl<S: futures::AsyncRead + futures::AsyncWrite + Unpin> ConnectionReader<S> {
         self.total_scrape_requests_counter.increment(1);
 
         let info_hashes = if let Some(info_hashes) = request.info_hashes {
-            info_hashes
+            info_hashes.as_vec()
         } else {
             // If request.info_hashes is empty, don't return scrape for all
             // torrents, even though reference server does it. It is too expensive.
@@ -408,9 +408,23 @@ impl<S: futures::AsyncRead + futures::AsyncWrite + Unpin> ConnectionReader<S> {
             return Ok(());
         };
 
+        // Without info hashes, no swarm worker would be asked for a response,
+        // so none would ever be sent and the pending scrape entry would never
+        // be removed
+        if info_hashes.is_empty() {
+            self.send_error_response(
+                "Scrape request contains no info hashes".into(),
+                Some(ErrorResponseAction::Scrape),
+                None,
+            )
+            .await?;
+
+            return Ok(());
+        }
+
         let mut info_hashes_by_worker: BTreeMap<usize, Vec<InfoHash>> = BTreeMap::new();
 
-        for info_hash in info_hashes.as_vec() {
+        for info_hash in info_hashes {
             let info_hashes = info_hashes_by_worker
                 .entry(calculate_in_message_consumer_index(&self.config, info_hash))
                 .or_default();
